@@ -6,7 +6,9 @@
 mod c03;
 mod c04;
 mod c05;
+mod c08;
 mod c09;
+mod c10;
 mod crdt;
 mod gen;
 
@@ -18,6 +20,7 @@ fn usage() -> ! {
 }
 
 fn main() {
+    vkit::quiet::install_hook();
     let args: Vec<String> = std::env::args().skip(1).collect();
     if args.is_empty() {
         usage();
@@ -39,7 +42,9 @@ fn main() {
             "C03" => c03::replay(&case),
             "C04" => c04::replay(&case),
             "C05" => c05::replay(&case),
+            "C08" => c08::replay(&case),
             "C09" => c09::replay(&case),
+            "C10" => c10::replay(&case),
             _ => {
                 eprintln!("no replay for property {prop:?}");
                 2
@@ -60,7 +65,9 @@ fn main() {
         "C03" => c03::run(tier),
         "C04" => c04::run(tier),
         "C05" => c05::run(tier),
+        "C08" => c08::run(tier),
         "C09" => c09::run(tier),
+        "C10" => c10::run(tier),
         _ => usage(),
     };
     std::process::exit(code);
